@@ -12,6 +12,34 @@ def cell_of(sc, kind, fallible):
     return [sc.cell, sc.hint or "-", kind, "try" if fallible else "plain"]
 
 
+def finding_witness_specs(first_cid):
+    """The open findings F30-F33 (positional counterparts filled in declaration order) are exercised on every run, whatever the
+    seed: three fixed programs - named S with differently typed permuted elements (F30), named S same-typed (F31, F33),
+    tuple S same-typed (F32) - drawn from a generator stream that does not depend on VERIF_SEED."""
+    import random
+    wg = xgen.G(random.Random(20260927))
+    want = {("named", False): None, ("named", True): None, ("tuple", True): None}
+    for _ in range(4000):
+        if all(v is not None for v in want.values()):
+            break
+        sc = rgen.gen_struct_case(wg, 0, dict(permuted=True, cell=wg.pick(["named->tuple_pos", "named->bare_tuple", "tuple->tuple"])))
+        if "positional_permuted" not in sc.flags or sc.existing_only:
+            continue
+        mapped = [f for f in sc.sf if f.desig != "ghost"]
+        same = len({f.ty for f in mapped}) == 1
+        if not same and all(a.ty == b.ty for a, b in zip(mapped, sorted(mapped, key=lambda f: f.t.name))):
+            continue      # differently typed but the permutation happens to keep every type in place
+        k = (sc.s_shape, same)
+        if k in want and want[k] is None:
+            want[k] = sc
+    out = []
+    for sc in want.values():
+        if sc is not None:
+            sc.cid = first_cid + len(out)
+            out.append(sc)
+    return out
+
+
 def run(tier, prop="C01", opts=None):
     ck = common.Check(prop, tier)
     ck.rule = ("struct pairs over the documented-valid cells (S named/tuple/unit x T named/tuple/unit/bare tuple x hint) x 12 kinds x member designations (same, rename by ident / index, "
@@ -27,6 +55,12 @@ def run(tier, prop="C01", opts=None):
         sc.inputs = {"i": di, "f": df}
         cases.append(rt.Case(i, code, meta=sc, input_text=di))
         specs[i] = sc
+    if prop == "C01":
+        for sc in finding_witness_specs(n):
+            code, di, df, kinds = rgen.render_case(sc, g, draws)
+            sc.inputs = {"i": di, "f": df}
+            cases.append(rt.Case(sc.cid, code, meta=sc, input_text=di))
+            specs[sc.cid] = sc
     events, rejected = rt.run_sharded(prop.lower() + "-" + tier, cases, "syn1", shards)
     for c in rejected:
         sc = c.meta
